@@ -774,7 +774,11 @@ def gen_poly(rng, n, fname='bls12_381_fr'):
 MV_EQ = [(3, 4), (3, 5), (4, 5), (6, 7), (6, 8), (6, 9), (7, 9), (26, 12), (26, 13), (26, 23), (12, 13), (0, 14), (0, 16),
          (0, 17), (0, 18), (0, 20), (0, 21), (0, 22), (28, 3), (29, 6), (30, 0), (31, 26), (27, 26), (0, 0), (18, 30),
          (20, 21), (28, 5), (29, 7)]
-MV_EQ_NVMIX = [(3, 4), (3, 5), (4, 5), (6, 7), (6, 8), (6, 9), (28, 3), (29, 6)]   # both sides carry max(num_vars)
+MV_EQ_NVMIX = [(3, 4), (3, 5), (4, 5), (6, 7), (6, 8), (6, 9), (28, 3), (29, 6),
+               # the two sides carry DIFFERENT num_vars (fixed defect F29: Hash fed num_vars although == ignores it)
+               (0, 14), (0, 22), (0, 18), (0, 30)]
+# zero()-based values (num_vars 0) against the same polynomial with the operand's num_vars (F29 as well)
+MV_EQ_ZERO_NV = [(11, 12), (11, 13), (11, 23), (11, 26), (24, 26), (11, 31), (20, 0), (21, 0)]
 MV_BY_F = {'f0': [(10, 0), (10, 18), (19, 26), (10, 30), (10, 20)], 'f1': [(10, 3), (10, 28), (19, 1), (10, 4)],
            'fm1': [(10, 6), (10, 29), (10, 9)], 'f2': [(10, 25)], 'frand': [(10, 2), (2, 10)]}
 MV_DIFF = [(0, 1), (3, 6), (0, 15), (0, 3), (15, 16), (3, 25), (12, 0), (26, 0), (10, 0), (19, 0), (1, 15), (14, 1)]
@@ -908,16 +912,16 @@ def gen_mvpoly(rng, n, fname='bls12_381_fr'):
         elif extra and t < 4:
             e = rng.choice(extra); kind = 'corr'
         elif t < 5:
-            e = rng.choice(MV_EQ); kind = 'same'
+            e = rng.choice(MV_EQ + MV_EQ_ZERO_NV); kind = 'same'
         elif t < 8:
             e = rng.choice(MV_BY_F[fk]); kind = 'scaled_' + fk
             if fk == 'frand':
                 R = dict(P); rextra = [(c * fs % p, m) for m, c in Q.items()]      # R denotes P + f Q
         else:
             e = rng.choice(MV_DIFF); kind = 'diff'
-        # DEFECT-2 (NOTES.md): derived Hash feeds num_vars, derived PartialEq ignores it, so equal polynomials with
-        # different num_vars (zero() has 0; a sum has the max) hash differently.  Pairs whose two sides can carry
-        # different num_vars are not generated: code 11 / 19 / 24 (zero()-based) only against each other.
+        # F29 (fixed in /repo): the derived Hash fed num_vars although the derived PartialEq ignores it, so equal polynomials
+        # with different num_vars (zero() has 0; a sum has the max) hashed differently.  Such pairs ARE generated
+        # (MV_EQ_ZERO_NV, the last entries of MV_EQ_NVMIX) so that a regression is reported.
         pt = [rng.choice([0, 1, p - 1, rng.randrange(p), rng.randrange(p)]) for _ in range(max(nv, nvq, nvr))]
         yield 'mvpoly_rel', H + [list(e), [fs], pt] + raw(nv, P, flags) + raw(nvq, Q, flags) + raw(nvr, R, flags, rextra), \
             'mvpoly%s/%s/%s%s' % ('13' if toy else '', cls, kind, flags and '/raw:' + '+'.join(sorted(flags)) or '')
@@ -1191,15 +1195,24 @@ RULE = ('pairs of values produced by different operation sequences (commuted / r
         'coordinates (orders 2, 4, 8 and the whole cofactor torsion on Jubjub, y = 0 / x = 0 points, points outside '
         'the prime-order subgroup on bls12_381 G1 / G2 and their multiples by r), every ordered pair of points of '
         'the whole toy curves (TE 20 points cofactor 4; SW 20 and 12 points cofactor 4 with full 2-torsion; SW 19 '
-        'points prime order); non-trivial = some operand after the configuration arguments is non-zero; '
+        'points prime order); multivariate SparsePolynomial<F, SparseTerm> expression pairs (32 codes: + - += -= +=(f,&q) '
+        'neg zero() and their compositions, f in {0, 1, -1, 2, random}) over operands built from raw term lists with '
+        'duplicates / zero coefficients / unordered or repeated variables / zero powers; curve points obtained by '
+        'deserialize_with_mode (both Compress, both Validate modes) from canonical encodings, the infinity flag over blank '
+        'and non-blank coordinate bytes, the other sign flag, small-order / out-of-subgroup points, compared with the '
+        'identity, re-serialized and compared pairwise; non-trivial = some operand after the configuration arguments is non-zero; '
         'distinct = distinct case lines')
 XCHECK = {'quick': 160, 'thorough': 600}
 TRUSTED = ['std::collections::hash_map::DefaultHasher (SipHash-1-3, zero keys) is used only to compare two hashes '
            'with each other; the hasher is not modelled (a hash is an arbitrary function of the hashed structure)',
            'educe / derive(PartialEq, Hash) are modelled as field-wise equality / hashing of all fields',
            'coq/C01 Montgomery model (into_bigint), coq/C03 curve models and coq/C08 polynomial operator models (FFT / inverse FFT '
-           'specified there, not modelled) are imported, see their packages']
+           'specified there, not modelled) are imported, see their packages',
+           'coq/C17 multivariate operator models (MvPoly) and coq/C09 point codec models (PointCodec, with the executable '
+           'square root / subgroup test of C09.Exec) are imported for mvpoly_rel / pt_decoded_rel, see their packages']
 ASSUMPTIONS = ['default features, x86-64 (the unrolled top-down loop of BigInt::cmp)',
                'Fp elements are always reduced Montgomery representatives (C01 invariant): wf, length N, val < p']
 HYPOTHESES = ['good_field F (field_theory of the dictionary operations with Leibniz equality, feqb decides '
-              'equality, 1+1 <> 0) for the curve-point theorems', 'val m odd (modulus) for the Fp theorems']
+              'equality, 1+1 <> 0) for the curve-point theorems', 'val m odd (modulus) for the Fp theorems',
+              'ring_theory of the dictionary operations and feqb decides equality, for the multivariate-polynomial '
+              'operator theorems']
